@@ -222,6 +222,10 @@ def _run_case(ctx, case) -> F.Outcome:
         if d:
             problem = d
             sig = "note-field:" + d["what"]
+        elif got.get("flat") != [[n["zid"], n["line"]] for n in got["notes"]]:
+            problem = {"what": "Page.notes is not in file order", "page_notes": got.get("flat"),
+                       "file_order": [[n["zid"], n["line"]] for n in got["notes"]]}
+            sig = "page-notes-not-in-file-order"
     out.obs = H.digest([got["exc"], got["nsyntax"], [[n.get(f) for f in FIELDS] for n in got["notes"]]])
     multi = case[0] != "single"
     lookalike = any(
